@@ -310,6 +310,18 @@ Definition set_lock (owner expiry : Z) (r : note_row) : note_row :=
     (r_ufvk r) (r_scope r) (r_nf r) (r_pos r) (r_stab r) (r_trust r) (r_prio r) (r_shin r) (r_shtrust r)
     (Some expiry) (Some owner) (r_spenders r).
 
+(** unlock_spent_notes (called by store_transaction_to_be_sent): the outputs the stored
+    transaction spends lose their lock — in their OWN pool's table; every other row keeps its. *)
+Definition clear_lock (r : note_row) : note_row :=
+  R (r_id r) (r_acct r) (r_pool r) (r_value r) (r_block r) (r_mined r) (r_texpiry r) (r_tminobs r)
+    (r_ufvk r) (r_scope r) (r_nf r) (r_pos r) (r_stab r) (r_trust r) (r_prio r) (r_shin r) (r_shtrust r)
+    None None (r_spenders r).
+
+Definition spent_by (refs : list (pool * Z)) (r : note_row) : bool := existsb (fun x => same_ref x r) refs.
+
+Definition unlock_spent (refs : list (pool * Z)) (db : list note_row) : list note_row :=
+  map (fun r => if spent_by refs r then clear_lock r else r) db.
+
 (** Locks one reference; [None] when no row was updated (missing output or foreign active lock). *)
 Definition lock_one (tip : option Z) (owner expiry : Z) (x : pool * Z) (db : list note_row) : option (list note_row) :=
   if existsb (fun r => same_ref x r && lockable tip owner r) db
